@@ -13,6 +13,10 @@ def keyfn(case, res, m):
         return f"{m['rule']}:{case['target']}"
     if case.get('chooser') == ['os']:
         return f"{m['rule']}:process"
+    if any(case.get('early') or []):
+        return f"{m['rule']}:early-put"
+    if any(case.get('late') or []):
+        return f"{m['rule']}:late-consumer"
     cls = 'stop' if case.get('stop') else ('multi-round' if case['rounds'] > 1 else 'one-round')
     return f"{m['rule']}:{cls}"
 
@@ -20,7 +24,7 @@ def keyfn(case, res, m):
 def run(chk):
     chk.audit(PROPS)
     n = 1000 if chk.tier == "quick" else 50000
-    biases = ['markers', 'markers', '', 'stop']
+    biases = ['markers', 'markers', '', 'stop', 'late', 'early']
     # can the token queues be observed (private names)?  If not, every trace is validated with the token
     # moves inferred, which is much more expensive: fewer and smaller cases then.
     fine_ok = chk.run_cases('scen_iq', [CORPUS[0]])[0][1].get('fine')
@@ -81,10 +85,12 @@ def run(chk):
     # process variant: real processes, OS schedule (sampled); outcome at quiescent points compared with
     # what the theorems predict; no trace validation
     pcases = [scen_iq_proc.gen_case(chk.rng, chk.tier) for _ in range(6 if chk.tier == 'quick' else 160)]
+    # real threads with the genuine multiprocessing helper queues (stop event given, never set)
+    pcases += [scen_iq_proc.gen_rt_case(chk.rng, chk.tier) for _ in range(3 if chk.tier == 'quick' else 40)]
     import concurrent.futures as cf
     try:
         # each case is its own interpreter in its own session (killed afterwards); threads only wait for them
-        with cf.ThreadPoolExecutor(6 if chk.tier == 'quick' else 12) as ex:
+        with cf.ThreadPoolExecutor(9 if chk.tier == 'quick' else 12) as ex:
             pres = list(zip(pcases, ex.map(scen_iq_proc.run_case, pcases)))
     except RuntimeError as e:
         raise core.InfraError(str(e))
@@ -112,7 +118,9 @@ def run(chk):
     chk.cov['rule'] = ('cases = random (m, n in 1..3, rounds 1..3, data-queue bound in {unbounded,1,2,3,5}, values per '
                        'supplier and round 0..3 incl. duplicate values, with/without stop event, stop request after a '
                        'generated number of scheduling points / virtual seconds with suppliers that never end or consumers '
-                       'that never start, renew after the last round or not, chooser, seed) run on the real IterableQueue '
+                       'that never start, renew after the last round or not, consumers that start only after the round is over, suppliers of '
+                       'the next round that start before renew with put_end(wait_for_renew=True), helper queues of the thread kind (no stop '
+                       'event) or of the multiprocessing kind (stop event), chooser, seed) run on the real IterableQueue '
                        'with real threads under the deterministic scheduler; plus timed-call cases = one blocked '
                        'IterableQueue.put / ResponsiveQueue.put/get with own timeout in {none, 0, block=False, 0.5, 1, 1.5, 2.5, 3, 4, 20 s} '
                        '(wait interval 1 s), call start, stop request and rescue at generated virtual moments (non-trivial = a stop '
@@ -148,6 +156,15 @@ TIMED_CORPUS = [
     dict(kind='timed', target='iq.put', T=None, nowait=False, a=0, s=2, r=None, chooser=['random', 0.0], seed=14),
     dict(kind='timed', target='rq.get', T=4, nowait=False, a=0, s=2, r=None, chooser=['random', 0.0], seed=15),
     dict(kind='timed', target='rq.get', T=2, nowait=False, a=0, s=0, r=None, chooser=['random', 0.0], seed=16),
+    # a sole consumer right behind the first of two suppliers, helper queues of the multiprocessing kind
+    dict(m=2, n=1, cap=0, rounds=1, items=[[[1], [2]]], resp=True, stop=None, hold_sup=[], skip_con=[],
+         final_renew=True, late=[[]], early=[[]], chooser=['sticky', 0.05, 0.0], seed=5),
+    # round over; a late second consumer iterates and the supplier already puts the next round's items
+    # (put_end(wait_for_renew=True)), both before renew
+    dict(m=1, n=2, cap=0, rounds=2, items=[[[1, 2]], [[3, 4]]], resp=True, stop=None, hold_sup=[], skip_con=[],
+         final_renew=False, late=[[1], []], early=[[0], []], chooser=['random', 0.0], seed=6),
+    dict(m=1, n=2, cap=0, rounds=2, items=[[[1, 2]], [[3, 4]]], resp=True, stop=None, hold_sup=[], skip_con=[],
+         final_renew=False, late=[[1], []], early=[[0], []], chooser=['sticky', 0.05, 0.0], seed=7),
 ]
 
 # minimal schedule-independent regression cases (run first)
@@ -170,14 +187,18 @@ TRUSTED = [
     'deterministic scheduler harness/detsched.py (replaces threading primitives, clock); timers fire only when no thread is enabled',
     'modelled not verified: queue.Queue is FIFO, atomic, blocks exactly when full/empty, a bounded get/put raises only if '
     'still empty/full at expiry; threading.Lock is a mutex; Event.is_set is a single read',
-    'the harness builds IterableQueue in thread mode and installs ResponsiveQueue(q, to_stop) itself, because '
-    'IterableQueue(q, to_stop=...) picks multiprocessing token queues even for threads (isinstance test after wrapping); '
-    'the three token queues are replaced by logging subclasses of queue.Queue with identical behaviour',
+    'the harness builds IterableQueue in thread mode and installs ResponsiveQueue(q, to_stop) itself; the three token queues are '
+    'replaced by logging stand-ins of the kind __init__ would choose: queue.Queue subclasses without a stop event, and with a '
+    'stop event FeedTok = a scheduler-driven stand-in for multiprocessing.Queue (buffer + feeder thread, get/empty see only '
+    'flushed objects, full/qsize count the semaphore), because the real multiprocessing queues block in pipe reads and cannot '
+    'run under the scheduler; the stand-in is cross-checked by a real-thread sample with the genuine helper queues',
     'process variant (multiprocessing queues / lock): OS schedule not controlled; a few cases per run are executed with real '
     'processes and their outcome at quiescent points is compared with the state the theorems predict (no trace validation); '
     'the quantifier over interleavings is carried by the theorems alone',
 ]
 ASSUMPTIONS = [
+    'early next-round puts (put_end(wait_for_renew=True) use) are monitor-only: the trace is validated up to the first such put, the '
+    'model has no puts between put_end and renew; they are generated only after every started consumer iteration of the round ended',
     'usage protocol (guards of the model): a supplier puts only before its put_end of the round; renew is called only after '
     'every consumer iteration of the round has ended; the next round starts after renew returned; put(None) is never called',
     'C17_stop_responsive bounds the wait in clock units under zero scheduling latency (a thread whose bounded wait '
